@@ -565,7 +565,7 @@ Definition prevalidate_table (c : client) (tr : str * list wreq) : list errclass
       then [] else [Validation]
   end.
 
-Definition batch_write (c : client) (reqs : fmap (list wreq)) : client * obs :=
+Definition batch_write_core (c : client) (reqs : fmap (list wreq)) : client * obs :=
   let all := flat_map snd reqs in
   (* under an emulated failure the shape of the batch is not looked at (fix 142a901) *)
   if (match c_failure c with Some _ => false | None => true end) && negb (forallb wreq_ok all) then (c, err_obs Validation)
@@ -578,6 +578,13 @@ Definition batch_write (c : client) (reqs : fmap (list wreq)) : client * obs :=
        | (c', _, Some o) => (c', {| o_res := o_res o; o_pay := PNone; o_fired := [] |})
        end
   end.
+
+(* SDK v1 Validate(): RequestItems names at least one table (looked at after the emulated failure, fix 142a901) *)
+Definition v1_empty_batch (c : client) (reqs : fmap (list wreq)) : bool :=
+  match flavour, c_failure c, reqs with V1, None, [] => true | _, _, _ => false end.
+
+Definition batch_write (c : client) (reqs : fmap (list wreq)) : client * obs :=
+  if v1_empty_batch c reqs then (c, err_obs InvalidParam) else batch_write_core c reqs.
 
 Definition batch_get (c : client) (reqs : fmap (list item)) (opts : fmap (fmap str * str)) : client * obs :=
   match flavour with
